@@ -485,3 +485,92 @@ def run(rep, programs):  # noqa: F811
     # equal to the number of zero bits, i.e. every path of the lower level gives back exactly what it took (R-BALANCE-LOWER)
     from props import c04
     c04.r_balance(rep, programs["core"])
+
+
+def r_toggle_dispatch(rep, prog):
+    """Bitfield::toggle: which primitive handles which order, and Bitfield::is_zero's mask (the two readers/writers of a block's
+    bits must cover exactly 2^order bits at the block's position)."""
+    rule = "R-TOGGLE-DISPATCH"
+    rep.rule(rule, "toggle: orders 3..6 use toggle_int::<u8|u16|u32|u64> (2^order bits), orders <= 2 the masked row update, larger "
+                   "orders the multi-row path; is_zero tests (MAX >> (64 - 2^order)) << bit index")
+    fn = "llfree::bitfield::Bitfield::toggle"
+    b = lib.need_body(prog, fn)
+    rep.saw(fn)
+    tm = T.Terms(b, prog)
+    sw = None
+    for s_ in range(b.nblocks()):
+        t = b.term(s_)
+        if t["k"] == "switch" and T.canon(tm.operand(t["discr"])) == ("p", "order") and len(t["targets"]) >= 3:
+            sw = s_
+    if sw is None:
+        rep.check(True, rule, "toggle|dispatch", "undecided: no `match order` with integer arms (another implementation)")
+    else:
+        targets = dict(b.term(sw)["targets"])
+        other = {x for x in targets.values()} | {b.term(sw)["otherwise"]}
+        width = {"u8": 8, "u16": 16, "u32": 32, "u64": 64}
+        bad = []
+        seen = set()
+        for k, tg in sorted(targets.items()):
+            blocks = cfg.reachable_from(b, tg, stop=other - {tg})
+            for bi, t in b.calls():
+                if bi in blocks and callee_name(t["callee"]) == "llfree::bitfield::Bitfield::toggle_int":
+                    ga = (t["callee"].get("res_args") or t["callee"].get("args") or [None])[0]
+                    seen.add(k)
+                    if width.get(ga) != (1 << k):
+                        bad.append("order %d -> toggle_int::<%s>" % (k, ga))
+        for k in (3, 4, 5, 6):
+            if k not in seen and k in targets:
+                bad.append("order %d arm does not call toggle_int" % k)
+            if k not in targets:
+                bad.append("no arm for order %d" % k)
+        rep.check(not bad, rule, "toggle|dispatch", "order k in 3..6 -> toggle_int of 2^k bits",
+                  "toggle dispatches %s: a block of that order is toggled with the wrong width (or not at all)" % "; ".join(bad), b.term(sw).get("span"))
+    # masked arm: mask = (MAX >> (ROW_BITS - 2^order)) << row_bit_idx(i)
+    def mask_ok(t):
+        for x in T.walk(t):
+            if x[0] == "bin" and x[1] == "Shl" and x[2][0] == "bin" and x[2][1] == "Shr" and T.const_val(x[2][2]) == (1 << 64) - 1:
+                sub = T.strip_casts(x[2][3])
+                l = T.linear(sub)
+                sh_ok = l is not None and l[1] == 64 and len(l[0]) == 1 and list(l[0].items())[0][1] == -1 and list(l[0].keys())[0][0] == "pow2"
+                pos = T.strip_casts(x[3])
+                pos_ok = pos[0] == "call" and pos[1] == "llfree::FrameId::row_bit_idx"
+                if sh_ok and pos_ok:
+                    return True
+        return False
+    masks = []
+    for cb in prog.crate("llfree").closures_of(fn):
+        ctm = T.Terms(cb, prog)
+        ups = cb.j.get("upvars", [])
+    for bi, si, st in b.stmts():
+        if st["k"] == "assign":
+            t = tm.rvalue(st["rv"])
+            if t[0] == "bin" and t[1] == "Shl" and any(T.const_val(y) == (1 << 64) - 1 for y in T.walk(t) if y[0] == "c"):
+                masks.append(t)
+    rep.check(bool(masks) and all(mask_ok(m) for m in masks), rule, "toggle|mask", "mask = (MAX >> (64 - 2^order)) << row_bit_idx(i)",
+              "the single-row mask of toggle is %s" % [T.show(m)[:100] for m in masks], b.span)
+    z = lib.need_body(prog, "llfree::bitfield::Bitfield::is_zero")
+    rep.saw(z.name)
+    ztm = T.Terms(z, prog)
+    rets = [ztm.call_term(bi) if si == "term" else ztm.rvalue(rv) for bi, si, rv in lib.assignments_to_return(z)]
+    single = [r for r in rets if r[0] == "bin" and r[1] == "Eq"]
+    good = len(single) == 1 and mask_ok(single[0]) and T.const_val(single[0][3]) == 0 and T.mentions_call(single[0], "llfree::bitfield::Bitfield::get_row")
+    rep.check(good, rule, "is_zero|mask", "(row & ((MAX >> (64 - 2^order)) << bit index)) == 0",
+              "is_zero does not test exactly the 2^order bits of the block: %s" % [T.show(r)[:120] for r in single], z.span)
+    multi = [r for r in rets if r[0] == "call" and r[1].endswith("::all")]
+    good = False
+    for r in multi:
+        rng = [x for x in T.walk(r) if x[0] == "agg" and x[1].startswith("adt:core::ops::range::Range::Range")]
+        if rng:
+            hi = rng[0][2][1]
+            adds = [x for x in T.walk(hi) if x[0] == "agg" and x[1].startswith("adt:llfree::FrameId")]
+            good = any(T.linear(a[2][0]) is not None and list(T.linear(a[2][0])[0].keys())[:1] and list(T.linear(a[2][0])[0].keys())[0][0] == "pow2"
+                       and T.linear(a[2][0])[1] == 0 for a in adds)
+    rep.check(good or not multi, rule, "is_zero|rows", "multi-row: rows of [i, i + 2^order)", "is_zero's multi-row range is not [i, i + 2^order)", z.span)
+
+
+_run3 = run
+
+
+def run(rep, programs):  # noqa: F811
+    _run3(rep, programs)
+    r_toggle_dispatch(rep, programs["core"])
